@@ -58,28 +58,11 @@ def gen_Lineno(repo: pathlib.Path) -> str:
     init = extract._func(cls, "__init__")
     errm = extract._func(cls, "error_message")
 
-<<<<<<< HEAD
-    # the newline: the one-character string constant a loop variable is compared with — in ``__init__`` itself or in a
-    # function / method it calls by name (the table may be computed by a helper)
-    called = set()
-    for node in ast.walk(init):
-        if isinstance(node, ast.Call):
-            if isinstance(node.func, ast.Name):
-                called.add(node.func.id)
-            elif isinstance(node.func, ast.Attribute):
-                called.add(node.func.attr)
-    scopes: List[ast.AST] = [init]
-    scopes += [f for f in mod.body if isinstance(f, ast.FunctionDef) and f.name in called]
-    scopes += [f for f in cls.body if isinstance(f, ast.FunctionDef) and f.name in called and f is not init]
-    newlines = set()
-    for loop in (n for scope in scopes for n in ast.walk(scope)):
-=======
     # the newline: the one-character string constant a loop variable is compared with — in __init__ itself or in a
     # module-level helper / a method of the class which __init__ calls (transitively)
     newlines = set()
     loops = [n for scope in extract._reachable_functions(mod, init, cls) for n in ast.walk(scope)]
     for loop in loops:
->>>>>>> 2082a4740a9a6cea38afcc12d3ca43dfbc7b1c65
         if not isinstance(loop, ast.For) or not isinstance(loop.target, ast.Name):
             continue
         for node in ast.walk(loop):
